@@ -49,6 +49,9 @@ CFG = {'assumptions': ["64*len(words) < 2^31 (Go's int32 positions cannot overfl
         'bitmap.Select32R64/held': 'bitmap.IndexSelect32R64(ws), index builds on a decoy, bitmap.Select32R64 twice',
         'bitmap.Select32R64/rle': 'bitmap.IndexSelect32R64 + bitmap.Select32R64 on the expanded run-length encoded '
                                   'bitmap',
+        'bitmap.Select32R64/session': 'ONE []uint64 buffer held for the whole case: bitmap.IndexSelect32R64 + '
+                                      'bitmap.Select32R64 queries interleaved with in-place edits of the buffer each '
+                                      'followed by a re-index',
         'bitmap.indexSelectU64': 'bitmap.indexSelectU64 (through bitmap.VerifIndexSelectU64)',
         'bitmap.select32single': 'bitmap.IndexSelect32 + bitmap.select32single (through bitmap.VerifSelect32Single), 0 '
                                  '<= i < number of 1-bits',
@@ -110,4 +113,9 @@ CFG = {'assumptions': ["64*len(words) < 2^31 (Go's int32 positions cannot overfl
          'words with 62 bits; all 256 words whose bytes are each 00 or ff with k at every byte edge; random words in 9 '
          'density classes (1/16 .. 15/16, pattern mix, byte-structured) x all k. An index case is non-trivial for a '
          'non-zero word, key = (popcount class, non-empty bytes); a selectU64Indexed case is non-trivial for k >= 1, '
-         'key = (popcount class, byte holding the answer, rank inside that byte, number of 1-bits below that byte)'}
+         'key = (popcount class, byte holding the answer, rank inside that byte, number of 1-bits below that byte). '
+         'Sessions on one held buffer (bitmap.Select32R64/session): 2..9 sparse words; up to 4 rounds of [query i '
+         'whose next 1-bit lies in a later word; move that 1-bit to another word in place or overwrite the whole '
+         'buffer; re-index; query exactly i+1]; key = (words, moves, whole-buffer rewrites). One 2^17+3-word '
+         'run-length encoded bitmap in both tiers with queries in its last three words (rank index built in parallel '
+         'chunks)'}
